@@ -62,6 +62,16 @@ func (e *Engine) uninterp(st *State, name string, c *ssa.CallCommon, args []Val)
 
 // uninterpVals: slices are passed as (header, backing array) so that the result depends on their content.
 func (e *Engine) uninterpVals(st *State, name string, args []Val, rt types.Type) Val {
+	// variadic call with a statically known number of arguments: pass the elements themselves
+	if n := len(args); n > 0 && args[n-1].ArrLen > 0 {
+		last := args[n-1]
+		et := last.Ty.Underlying().(*types.Slice).Elem()
+		exp := append([]Val{}, args[:n-1]...)
+		for i := 0; i < last.ArrLen; i++ {
+			exp = append(exp, Val{T: st.readElem(et, last.ArrBase, fmt.Sprint(i)), Ty: et})
+		}
+		args = exp
+	}
 	var sorts, terms []string
 	var lits []string
 	allLit := true
@@ -89,11 +99,8 @@ func (e *Engine) uninterpVals(st *State, name string, args []Val, rt types.Type)
 			allLit = false
 		}
 	}
-	sym := e.d.symbol("ext_", name)
 	key := name + "(" + strings.Join(sorts, ",") + ")"
-	if old, ok := e.extFuncs[name]; ok && old != key {
-		sym = e.d.symbol("ext_", key)
-	}
+	sym := e.d.symbol("ext_", key)
 	e.extFuncs[name] = key
 	e.d.add("extfn:"+sym, fmt.Sprintf("(declare-fun %s (%s) %s)", sym, strings.Join(sorts, " "), e.sortOf(rt)))
 	// second-argument literals of evaluable two-string functions are remembered for ground facts
